@@ -134,7 +134,14 @@ func (r *c13Ref) slot(key string) (*bool, *any) {
 // sameState: the store's final contents equal the reference state
 func (r *c13Ref) sameState(s *SharedStore) bool {
 	ok := s.Len() == r.n()
-	for _, k := range []string{"a", "b", "c"} {
+	// Keys lists exactly the live keys (the third key of the run may be the empty string)
+	ks := s.Keys()
+	ok = ok && len(ks) == r.n()
+	for _, k := range ks {
+		has, _ := r.slot(k)
+		ok = ok && (k == "a" || k == "b" || k == c13Third) && *has
+	}
+	for _, k := range []string{"a", "b", c13Third} {
 		has, val := r.slot(k)
 		v, present := s.Get(k)
 		ok = ok && present == *has && (!*has || vSame(v, *val))
@@ -182,10 +189,22 @@ func (r *c13Ref) apply(o *c13Op) bool {
 // operations are then distinguishable (by identity) although they are deeply equal
 var c13ValueKind = -1
 
-func c13Val(label string) any {
+// the third key of the run: "c", or the empty string (a key like any other)
+var c13Third = "c"
+
+func c13Init() {
 	if c13ValueKind < 0 {
 		c13ValueKind = vChoice("valueKind", 4) // one kind for all values of the run
+		c13Third = "c"
+		if c13ValueKind == 0 && vNondet[bool]("thirdKeyIsTheEmptyString") {
+			vCover("empty-string-key")
+			c13Third = ""
+		}
 	}
+}
+
+func c13Val(label string) any {
+	c13Init()
 	switch c13ValueKind {
 	case 1:
 		vCover("pointer-values")
@@ -201,6 +220,7 @@ func c13Val(label string) any {
 }
 
 func c13NewOp(label string) *c13Op {
+	c13Init()
 	o := &c13Op{kind: vChoice(label+".kind", c13Kinds)}
 	switch vChoice(label+".key", 3) {
 	case 0:
@@ -208,7 +228,7 @@ func c13NewOp(label string) *c13Op {
 	case 1:
 		o.key = "b"
 	default:
-		o.key = "c"
+		o.key = c13Third
 	}
 	o.val = c13Val(label)
 	return o
